@@ -81,6 +81,7 @@ def check(program: Program, run: Run) -> None:
     run.rule("R1 every name hole is Quoted with a quote expression built from ctx.quote_char / ctx.alias_quote_char")
     run.rule("R2 definition-site and reference-site quote characters are equal under every shipped SQL_CONTEXT")
     run.rule("R3 the quoted text has the delimiter doubled (escape)")
+    run.rule("R7 a renderer prints only its own name attributes; a child's name is written by rendering the child (reviewed exceptions: Field/Star column qualifiers)")
     run.rule("R6 a name supplied to a constructor/builder reaches the name-bearing object unmodified: no str transformation (split, strip, case change, replace ...) of a parameter in a function that builds Schema/Table/Field/Column/Index objects or stores a name attribute")
     run.rule("R5 (inherited from C08/R1) no name-bearing child is formatted with str()/format instead of get_sql(ctx): it would be quoted with the default context's characters")
     run.rule("R4 every row-source slot (FROM item, UPDATE target, joined item) writes the table's alias exactly once: column qualifiers refer to it")
@@ -161,6 +162,55 @@ def check(program: Program, run: Run) -> None:
         fq = program.func("utils.format_quotes")
         run.finding("C07/unescaped-delimiter:utils.format_quotes", f"no identifier emission doubles the delimiter ({unescaped} site paths go through format_quotes unescaped): a name containing the quote character ends the identifier early (\"c\"d\")",
                     where=fq.loc(), rule="R3")
+
+    # ---- R7: a renderer prints its own name; the name of a child object is printed by rendering the child, which also
+    # writes the child's own qualifiers (Schema -> parent schemas, Table -> schema).  Reading `self.<child>.<name>` directly
+    # bypasses them.  The two reviewed exceptions are column qualifiers, which by design refer to the row source by its
+    # alias or bare name.
+    QUALIFIER_READS = {("Field.get_sql", "table"): "column qualifier: refers to the row source by alias or bare table name",
+                       ("Star.get_sql", "table"): "star qualifier: same"}
+
+    def foreign_child(v):
+        """`self.<child>.<name attr>` (also through get_table_name(self.<child>) / `a or b`): the child path, else None"""
+        if isinstance(v, Sym) and v.kind in ("attr", "getattr-default") and v.args[1] in NAME_ATTRS:
+            base = v.args[0]
+            if isinstance(base, Sym) and base.kind in ("attr", "getattr-default") and show(base.args[0]) == "self":
+                return base.args[1]
+            return None
+        if isinstance(v, Sym) and v.kind == "op" and v.args[0] == "or":
+            for x in v.args[1:]:
+                r = foreign_child(x)
+                if r:
+                    return r
+            return None
+        if isinstance(v, Sym) and v.kind == "call" and v.args and isinstance(v.args[0], str) and "get_table_name" in v.args[0]:
+            for x in v.args[1:]:
+                if isinstance(x, Sym) and x.kind in ("attr", "getattr-default") and show(x.args[0]) == "self":
+                    return x.args[1]
+        return None
+
+    n7 = 0
+    seen7 = set()
+    for f, skv in fsk.items():
+        for flat in paths(skv, limit=4000):
+            for i, a, s_ in name_holes(flat):
+                p_ = flat[i]
+                fn = p_.src[0] if p_.src and not p_.src[0].startswith("utils.") else f.qualname
+                child = foreign_child(p_.value)
+                if child is None or (fn, child) in seen7:
+                    continue
+                seen7.add((fn, child))
+                n7 += 1
+                ok = (fn, child) in QUALIFIER_READS
+                run.ob("C07/R7 a child's name is written by rendering the child", f"{fn}:{child}", ok, detail=s_[:80],
+                       where=f"{p_.src[2]}:{p_.src[1]}" if p_.src else "")
+                if not ok:
+                    run.finding(f"C07/child-name-read-directly:{fn}:{child}",
+                                f"{fn} prints `{s_[:60]}`, a name attribute of its child `{child}`, instead of rendering the child: whatever the child's own renderer "
+                                f"writes besides that name (parent schemas, the schema of a table) is silently dropped", where=f"{p_.src[2]}:{p_.src[1]}" if p_.src else "", rule="R7")
+    run.analysed["foreign_name_reads"] = n7
+    if n7 < 2:
+        raise AnalysisError(f"anchor vanished: reviewed qualifier reads (Field/Star -> table) found {n7}")
 
     # ---- R4: Field/Star qualify by `table.alias` whenever the table has one (C11/R2), whatever the context; the
     # alias therefore has to be *defined* at the slot that introduces the table as a row source.
